@@ -33,7 +33,7 @@ COMPONENTS = {"real": ["pel.peltool.peltool.main() in-process, all decoders"],
 ASSUMPTIONS = ["a damaged copy that a mode still decodes is legitimately reported and is excluded from the equality relation for that mode (it still must not break well-formedness of stdout)",
                "stdout of --json is not required to be JSON (its product is files); the set and bytes of output files are compared instead",
                "interpreter at optimisation level 0 (C05 covers -O)"]
-PROBES = ["junk:torn", "junk:flip", "junk:lost", "junk:garbage", "junk:foreign", "subdir", "junk_still_decodable",
+PROBES = ["junk_other_creator", "junk:torn", "junk:flip", "junk:lost", "junk:garbage", "junk:foreign", "subdir", "junk_still_decodable",
           "junk_shares_eid", "mode:-j", "mode:--src-exclude", "hex"]
 
 DIR_MODES = ["-l", "-a", "-n", "--plid", "--src", "--src-exclude", "-j"]
@@ -46,10 +46,23 @@ def gen_plan(rng, tier, run):
     junk = []
     for i in range(rng.randint(1, 4)):
         src = rng.choice(files)
-        data = pelgen.build(src["recipe"])
-        j = common.gen_junk(rng, data, pelgen.section_offsets(src["recipe"]), fields=pelgen.field_offsets(src["recipe"]))
+        rec = src["recipe"]
+        if rng.random() < 0.3:
+            # a damaged log of ANOTHER creator that shares ids / component ids with a healthy PEL: its headers are
+            # decoded before the file is rejected
+            rec = json.loads(json.dumps(rec))
+            rec["creator"] = rng.choice([c for c in "HOBM" if c != rec["creator"]])
+            data = pelgen.build(rec)
+            j = {"kind": "torn", "off": rng.choice([48, 49, 56, 60, 71, 72, 73, 80])} if rng.random() < 0.7 else \
+                common.gen_junk(rng, data, pelgen.section_offsets(rec), kinds=["torn", "flip"], fields=pelgen.field_offsets(rec))
+            if j["kind"] == "torn":
+                j["off"] = min(j["off"], len(data) - 1)
+            j["variant"] = "creator"
+        else:
+            data = pelgen.build(rec)
+            j = common.gen_junk(rng, data, pelgen.section_offsets(rec), fields=pelgen.field_offsets(rec))
         junk.append({"name": rng.choice([src["name"] + ".part", "0" + src["name"], src["name"] + "~", "zz%d" % i, "A%d.pel" % i]),
-                     "recipe": src["recipe"], "junk": j})
+                     "recipe": rec, "junk": j})
     names = set(f["name"] for f in files)
     junk = [j for j in junk if j["name"] not in names and not names.add(j["name"])]
     subdirs = []
@@ -59,6 +72,8 @@ def gen_plan(rng, tier, run):
     some = rng.choice(files)["recipe"]
     ps = [s for s in some["sections"] if s["kind"] == "src" and s["id"] == "PS"]
     plan = {"files": files, "junk": junk, "subdirs": subdirs,
+            # process model: every invocation in a fresh module set (= its own process) or all in one process
+            "fresh": rng.random() < 0.5,
             "opts": list(rng.choice(common.SELECTION_SETS)),
             "flags": [x for x in ("-r", "-P") if rng.random() < 0.2],
             "ext": ".pel" if rng.random() < 0.15 else None,
@@ -126,11 +141,15 @@ def execute(plan):
     base_eids = {f["recipe"]["eid"] for f in plan["files"]}
     for j in plan["junk"]:
         bump("junk:" + j["junk"]["kind"])
+        if j["junk"].get("variant"):
+            bump("junk_other_creator")
         if j["recipe"]["eid"] in base_eids:
             bump("junk_shares_eid")
     if plan["subdirs"]:
         bump("subdir")
     with World() as w:
+        w.fresh_per_run = bool(plan.get("fresh"))
+        bump("process_model:fresh" if w.fresh_per_run else "process_model:shared")
         common.put_store(w, "B", plan["files"])
         w.put("X/exclude.txt", "\n".join(plan["exclude"]).encode())
         for i, j in enumerate(plan["junk"]):
